@@ -1,4 +1,5 @@
 import Failsafe.Exec
+import Failsafe.Tie.Execution
 /-!
 # C17 — execution statistics count attempts, executions, retries and hedges exactly
 
@@ -324,5 +325,31 @@ theorem bulkhead_rejection_not_an_execution (fuel pos id : Nat) (inner : Layer) 
   exact ⟨rfl, rfl, rfl, rfl⟩
 
 example : Stats { w := {}, script := [] } := rfl
+
+/-! ## the boolean flags agree with the counters (about the getters as regenerated from `execution.go`) -/
+
+open Failsafe.ExecKernels in
+/-- `IsFirstAttempt ⇔ Attempts = 1` and `IsRetry ⇔ Attempts > 1`, for the regenerated getters -/
+theorem flags_agree (c : Counters) :
+    (Generated.Execution.isFirstAttemptGen c = true ↔ Generated.Execution.attemptsGen c = 1) ∧
+    (Generated.Execution.isRetryGen c = true ↔ Generated.Execution.attemptsGen c > 1) := by
+  rw [Tie.Execution.tie_isFirstAttempt, Tie.Execution.tie_isRetry, Tie.Execution.tie_attempts]
+  simp [isFirstAttempt, isRetry]
+
+open Failsafe.ExecKernels in
+/-- with at least one attempt (always: an execution starts with `Attempts = 1`) exactly one of the two flags holds; and under
+the statistics invariant `Attempts = 1 + Retries + Hedges` an execution "is a retry" as soon as a retry *or a hedge* has started -/
+theorem first_xor_retry (c : Counters) (h : 1 ≤ c.attempts) :
+    (Generated.Execution.isFirstAttemptGen c = true ∧ Generated.Execution.isRetryGen c = false) ∨
+    (Generated.Execution.isFirstAttemptGen c = false ∧ Generated.Execution.isRetryGen c = true) := by
+  rw [Tie.Execution.tie_isFirstAttempt, Tie.Execution.tie_isRetry]
+  by_cases h1 : c.attempts = 1
+  · left; simp [isFirstAttempt, isRetry, h1]
+  · right; simp [isFirstAttempt, isRetry, h1]; omega
+
+open Failsafe.ExecKernels in
+theorem isRetry_iff_retries_or_hedges (c : Counters) (hs : c.attempts = 1 + c.retries + c.hedges) :
+    Generated.Execution.isRetryGen c = true ↔ 0 < c.retries + c.hedges := by
+  rw [Tie.Execution.tie_isRetry]; simp [isRetry]; omega
 
 end Failsafe.Props.C17
